@@ -138,6 +138,7 @@ inductive Label where
   | adv (i : Nat)          -- task `i` performs its next statement
   | waitCall               -- a goroutine calls `Wait()`
   | waitRet (j : Nat)      -- the `j`-th `Wait()` call returns
+  | waitTimed              -- a goroutine calls `Wait(d)`, d > 0, and the call returns (idle or expired)
 deriving DecidableEq, Repr
 
 def St.step (s : St) : Label → Option St
@@ -151,6 +152,12 @@ def St.step (s : St) : Label → Option St
         some { s with waiters := s.waiters.set j { w with returned := true } }
       else none
     | none => none
+  -- `Wait(d)` as coded: a helper goroutine blocks in `l.w.Wait()` and signals a buffered
+  -- channel; the caller selects on that channel and `time.After(d)`.  Neither of them
+  -- sends to / receives from `l.c` or changes the WaitGroup counter: whenever the call
+  -- returns (counter zero, or `d` expired with functions still running) the Limiter is
+  -- as it was.  (Order re-checked against the regenerated fact `waitTimedBody`.)
+  | .waitTimed => some s
 
 /-- Run a schedule; `none` if some step is not enabled. -/
 def St.run (s : St) : List Label → Option St
